@@ -31,6 +31,8 @@ def tt(t):
 
 
 def sym_tag(x):
+    if isinstance(x, Epsilon):
+        return "eps"
     if isinstance(x, Variable):
         return vt(x)
     if isinstance(x, Terminal):
